@@ -51,7 +51,11 @@ func main() {
 	case "check":
 		fs := flag.NewFlagSet("check", flag.ExitOnError)
 		tier := fs.String("tier", envOr("VERIF_TIER", "quick"), "quick|thorough")
-		workers := fs.Int("workers", runtime.NumCPU(), "worker processes")
+		defWorkers := runtime.NumCPU()
+		if v, err := strconv.Atoi(os.Getenv("VERIF_WORKERS")); err == nil && v > 0 {
+			defWorkers = v
+		}
+		workers := fs.Int("workers", defWorkers, "worker processes (default: all cores, or VERIF_WORKERS)")
 		budget := fs.Duration("budget", 0, "time budget (0 = tier default)")
 		verbose := fs.Bool("v", false, "progress on stderr")
 		id := os.Args[2]
@@ -61,9 +65,9 @@ func main() {
 			explore.Fatalf("unknown check %s", id)
 		}
 		if *budget == 0 {
-			*budget = 4 * time.Minute
+			*budget = 6 * time.Minute
 			if *tier == "thorough" {
-				*budget = 25 * time.Minute
+				*budget = 15 * time.Minute
 			}
 		}
 		seed, _ := strconv.Atoi(envOr("VERIF_SEED", "0"))
